@@ -13,7 +13,7 @@ def main():
     shims = [sut.shim_obj(s, extra=spec.get('shim_flags', {}).get(s, ())) for s in spec.get('shims', [])]
     shims += [sut.repo_obj(s) for s in spec.get('repo_srcs', [])]
     exe = build.link_worker(sut, prop.lower(), drv, shims, with_lib=spec.get('with_lib', True), libs=spec.get('libs', ()))
-    txt = open(path).read()
+    txt = open(path, newline='').read()
     tmp = None
     try:
         json.loads(txt)['case']
